@@ -1,4 +1,4 @@
 SPECIFICATION Spec
 CONSTANT Dump = FALSE
-INVARIANTS ValidLayout ScopeDefsAgree ResolutionIsFunction UsableIffSpellable
+INVARIANTS ValidLayout ScopeDefsAgree ResolutionIsFunction UsableIffSpellable L2Scope L2Ser L2Unres L2CmpInv L2DedupInv
 CHECK_DEADLOCK FALSE
